@@ -499,9 +499,16 @@ func runLBDist(x *X) {
 				p.hold = false
 			}
 			plans = append(plans, p)
+			// now and then the client is already gone when its request is looked at: it takes no
+			// backend's time, and must not leave a trace in anybody's in-flight count
+			gone := c.Intn(5, "client-already-gone") == 0
+			if gone {
+				p.hold = false
+				x.Fault("client-disconnect")
+			}
 			var id int
 			s.Spawn("lc", func() {
-				r, rid := h.newRequest(reqSpec{client: "192.0.2.1", plan: p})
+				r, rid := h.newRequest(reqSpec{client: "192.0.2.1", plan: p, preCancelled: gone})
 				x.mu.Lock()
 				id = rid
 				x.mu.Unlock()
